@@ -1,1 +1,35 @@
-From SF Require Import Base.Prelude Unsized.Types Unsized.Parse.
+(* C04 - Safe parsing of arbitrary bytes is memory-safe and never admits invalid values. Statements only.
+   In the model every slice access of the parser is a checked access on the given byte list; `Fault` is the
+   outcome of an unchecked access leaving the input.  The theorems hold for ALL byte strings, all shapes and
+   both settings of the overflow-check flag. *)
+From SF Require Import Base.Prelude Gen.Generated Unsized.Types Unsized.Parse Unsized.Proofs.EncodeParse.
+
+Theorem C04_parse_never_faults : forall ovf t bs, parse ovf t bs <> Fault.
+Proof. exact parse_never_faults. Qed.
+
+Theorem C04_extent_never_faults : forall ovf t bs, extent ovf t bs <> Fault.
+Proof. exact extent_never_faults. Qed.
+
+Theorem C04_owned_never_faults : forall ovf t bs, owned ovf t bs <> Fault.
+Proof. exact owned_never_faults. Qed.
+
+(* the reported extent lies inside the input *)
+Theorem C04_extent_inside : forall ovf t bs n, extent ovf t bs = Ok n -> 0 <= n <= zlen bs.
+Proof. exact extent_inside. Qed.
+
+(* whenever a value is produced no field has an invalid bit pattern, and its extent is inside the input *)
+Theorem C04_valid_bits :
+  forall ovf t bs v n, parse ovf t bs = Ok (v, n) -> valid_bits t v = true /\ 0 <= n <= zlen bs.
+Proof. exact parse_valid_bits. Qed.
+
+(* with overflow checks off, computing the extent never panics: errors only *)
+Theorem C04_extent_total_unchecked : forall t bs, extent false t bs <> Panic.
+Proof. exact extent_no_panic_unchecked. Qed.
+
+Example C04_nonvacuous :
+  (* a displaced offset table (the D1 witness): an error, not a fault; a bool byte of 2: rejected *)
+  parse true (TStruct [TUList (TList (FAny 1) 1) 1])
+        [4;0;0;0; 2;0;0;0; 160;15;0;0;7; 163;15;0;0;8; 2;0;0;0; 2;67;95;0] = Err EC_POINTER_OUT_OF_BOUNDS /\
+  parse true (TList FBool 1) [1; 2] = Err EC_CHECKED_CAST_ERROR /\
+  parse true (TList FBool 1) [2; 1; 0] = Ok (VList [[1]; [0]], 3).
+Proof. vm_compute. repeat split; reflexivity. Qed.
